@@ -31,9 +31,10 @@ Definition file_inodes (s : istate) : N :=
   N.of_nat (length (filter (fun p => is_none (i_fh (snd p))) (data s))).
 
 (* MountFds::get for the export's mount: found -> nothing; otherwise open the mount point
-   O_PATH (raw descriptor, never closed: defect D8), reopen it for reading, insert *)
+   O_PATH (+1), reopen it for reading (+1), insert; the O_PATH descriptor is owned by a File and
+   closed on return (-1) (it used to be a raw descriptor that was never closed: defect D8, fixed) *)
 Definition mount_get (live : bool) (fds leaked : N) : bool * N * N :=
-  if live then (true, fds, leaked) else (true, fds + 2, leaked + 1).
+  if live then (true, fds, leaked) else (true, fds + 1 + 1 - 1, leaked).
 
 (* PassthroughFs::import: open_file_and_handle(root) (+1), to_openable_handle if a file handle
    is used (then the O_PATH descriptor is dropped), insert the root *)
@@ -207,9 +208,3 @@ Fixpoint hrun (c : hcfg) (s : hstate) (h : list hop) : list hreply * hstate :=
   | [] => ([], s)
   | o :: r => let (rep, s1) := hstep c s o in let (l, s2) := hrun c s1 r in (rep :: l, s2)
   end.
-
-(* the known defect (DESIGN.md D8): MountFds::get never closes the O_PATH descriptor it probes the
-   mount point with; after the first one, this happens at every destroy() + import() when inodes
-   are tracked by file handles *)
-Definition known_d8 (c : hcfg) (o : hop) : bool :=
-  match o with HDestroy root => negb (is_none (eff_fh (hc c) root)) | _ => false end.
